@@ -162,6 +162,7 @@ def parse_tr(lst):
 
 
 EXACT = {1, 2, 3, 4, 5, 10, 11, 12, 13, 15}
+MODEL_ONLY = {8, 17}
 POINTS = {6, 16}
 TRANS = {7, 14}
 OBS_NAMES = {1: "prover phase-1 call results", 2: "prover secrets after phase 1", 3: "prove result",
@@ -179,7 +180,7 @@ def compare_case(cid, m, im, info, msm_lines):
     if im is None:
         return [(0, "implementation produced no output for this case")]
     curve, cap, extra = info["curve"], info.get("cap", 1), info.get("extra", 0)
-    codes = sorted((set(m.keys()) | set(k for k in im.keys() if k < 90)))
+    codes = sorted((set(k for k in m.keys() if k not in MODEL_ONLY) | set(k for k in im.keys() if k < 90)))
     for code in codes:
         a = m.get(code)
         b = im.get(code)
